@@ -158,65 +158,150 @@ func funcHash(prog *ssa.Program, fn *ssa.Function) string {
 func runHarness(prog *ssa.Program, pkg *ssa.Package, fn *ssa.Function, tier int, known []KnownFinding, opts runOpts) (res HarnessResult) {
 	start := time.Now()
 	res.Name = fn.Name()
-	e, err := newEngine(prog, pkg, tier, opts.solver, opts.qTimeoutMs)
-	if err != nil {
-		res.EngineError = err.Error()
-		return
-	}
-	defer e.solver.Close()
-	for _, k := range known {
-		if k.Harness == fn.Name() && k.Status == "open" {
-			e.knownTags[k.Msg] = true
-		}
-	}
-	for k, v := range opts.params {
-		e.params[k] = v
-	}
-	e.deadline = start.Add(opts.harnessBudget)
-	e.maxPaths = opts.maxPaths
-	e.wantValid = opts.wantValid
-	e.debug = opts.debug
-	func() {
-		defer func() {
-			if r := recover(); r != nil {
-				switch x := r.(type) {
-				case engineError:
-					res.EngineError = x.msg
-				default:
-					res.EngineError = fmt.Sprintf("%v\n%s", r, debug.Stack())
+	pool := NewWorkPool()
+	nw := opts.workers
+	engines := make([]*Engine, nw)
+	errs := make([]string, nw)
+	var wg sync.WaitGroup
+	var first sync.Once
+	for w := 0; w < nw; w++ {
+		wg.Add(1)
+		go func(w int) {
+			defer wg.Done()
+			// a worker (and its solver process) is created only once there is work for it
+			firstPrefix, ok := pool.pop()
+			if !ok {
+				return
+			}
+			e, err := newEngine(prog, pkg, tier, opts.solver, opts.qTimeoutMs)
+			if err != nil {
+				errs[w] = err.Error()
+				pool.done()
+				pool.halt()
+				return
+			}
+			engines[w] = e
+			e.pool = pool
+			e.altKind = opts.alt
+			for _, k := range known {
+				if k.Harness == fn.Name() && k.Status == "open" {
+					e.knownTags[k.Msg] = true
 				}
 			}
-		}()
-		e.RunHarness(fn)
-	}()
-	res.Stats = e.stats
-	res.Violations = e.violations
-	for _, v := range e.knownHit {
-		res.Known = append(res.Known, *v)
+			for k, v := range opts.params {
+				e.params[k] = v
+			}
+			e.deadline = start.Add(opts.harnessBudget)
+			e.maxPaths = opts.maxPaths
+			e.wantValid = opts.wantValid
+			e.debug = opts.debug
+			if opts.debug {
+				first.Do(func() {
+					os.MkdirAll(filepath.Join(verifDir, "build"), 0o755)
+					if f, err := os.Create(filepath.Join(verifDir, "build", fn.Name()+".smt2")); err == nil {
+						e.solver.log = f
+					}
+				})
+			}
+			defer func() {
+				if r := recover(); r != nil {
+					switch x := r.(type) {
+					case engineError:
+						errs[w] = x.msg
+					default:
+						errs[w] = fmt.Sprintf("%v\n%s", r, debug.Stack())
+					}
+					pool.halt()
+				}
+			}()
+			e.RunWorker(fn, firstPrefix)
+		}(w)
 	}
-	res.Inconclusive = e.inconclusive
-	for f := range e.funcsSeen {
-		if f.Pkg == pkg && !strings.HasPrefix(f.Name(), "vh_") && !strings.HasPrefix(f.Name(), "v") || f.Pkg == pkg && f.Signature.Recv() != nil {
-			res.Functions = append(res.Functions, f.String()+"#"+funcHash(prog, f))
+	wg.Wait()
+	res.Stats.Covers = map[string]int{}
+	res.Stubs = map[string]int{}
+	fnSeen := map[string]bool{}
+	knownSeen := map[string]bool{}
+	for w, e := range engines {
+		if errs[w] != "" && res.EngineError == "" {
+			res.EngineError = errs[w]
+		}
+		if e == nil {
+			continue
+		}
+		st := e.stats
+		res.Stats.Paths += st.Paths
+		res.Stats.PathsDone += st.PathsDone
+		res.Stats.PathsBlocked += st.PathsBlocked
+		res.Stats.Infeasible += st.Infeasible
+		res.Stats.Instrs += st.Instrs
+		res.Stats.Forks += st.Forks
+		res.Stats.Merges += st.Merges
+		res.Stats.MergeAborts += st.MergeAborts
+		res.Stats.Asserts += st.Asserts
+		res.Stats.AssertQ += st.AssertQ
+		res.Stats.VCs += st.VCs
+		res.Stats.VCQ += st.VCQ
+		res.Stats.Unknowns += st.Unknowns
+		res.Stats.Unwind += st.Unwind
+		res.Stats.CacheHits += st.CacheHits
+		res.Stats.AltQueries += st.AltQueries
+		for k, v := range st.Covers {
+			res.Stats.Covers[k] += v
+		}
+		res.Violations = append(res.Violations, e.violations...)
+		for k, v := range e.knownHit {
+			if !knownSeen[k] {
+				knownSeen[k] = true
+				res.Known = append(res.Known, *v)
+			}
+		}
+		res.Inconclusive = append(res.Inconclusive, e.inconclusive...)
+		for f := range e.funcsSeen {
+			if f.Pkg == pkg && !strings.HasPrefix(f.Name(), "vh_") {
+				fnSeen[f.String()+"#"+funcHash(prog, f)] = true
+			}
+		}
+		for k, v := range e.stubsUsed {
+			res.Stubs[k] += v
+		}
+		for _, s := range []*Solver{e.solver, e.alt} {
+			if s == nil {
+				continue
+			}
+			res.Queries += s.Queries
+			res.SolverS += s.Time.Seconds()
+			res.Sat += s.nSat
+			res.UnsatN += s.nUnsat
+			res.SolverErrors = append(res.SolverErrors, s.Errors...)
+			s.Close()
+		}
+		res.UnknownN += st.Unknowns
+		if len(res.Validations) < opts.wantValid {
+			res.Validations = append(res.Validations, e.validations...)
+		}
+		res.Unwind = e.unwind
+		if e.solver.log != nil {
+			if f, ok := e.solver.log.(*os.File); ok {
+				f.Close()
+			}
 		}
 	}
-	sort.Strings(res.Functions)
-	res.Stubs = e.stubsUsed
-	res.Queries = e.solver.Queries
-	res.SolverS = e.solver.Time.Seconds()
-	res.Sat, res.UnsatN, res.UnknownN = e.solver.nSat, e.solver.nUnsat, e.solver.nUnknown
-	res.SolverErrors = e.solver.Errors
-	if len(e.solver.Errors) > 0 {
-		res.Inconclusive = append(res.Inconclusive, fmt.Sprintf("%d solver error lines (first: %s)", len(e.solver.Errors), e.solver.Errors[0]))
+	for f := range fnSeen {
+		res.Functions = append(res.Functions, f)
 	}
-	res.Validations = e.validations
-	res.Unwind = e.unwind
+	sort.Strings(res.Functions)
+	if len(res.SolverErrors) > 0 {
+		res.Inconclusive = append(res.Inconclusive, fmt.Sprintf("%d solver error lines (first: %s)", len(res.SolverErrors), res.SolverErrors[0]))
+	}
 	res.WallS = time.Since(start).Seconds()
 	return
 }
 
 type runOpts struct {
 	solver        string
+	alt           string
+	workers       int
 	qTimeoutMs    int
 	harnessBudget time.Duration
 	maxPaths      int
@@ -261,10 +346,12 @@ func main() {
 	prop := flag.String("prop", "", "property id (e.g. C05)")
 	tierS := flag.String("tier", "quick", "quick|thorough")
 	only := flag.String("only", "", "run only this harness function")
-	solver := flag.String("solver", "z3", "z3|z3-new|cvc5")
+	solver := flag.String("solver", "z3-new", "z3|z3-new|cvc5")
+	alt := flag.String("alt", "cvc5", "fallback solver on unknown (empty = none)")
 	qto := flag.Int("qtimeout", 0, "per-query timeout ms")
 	budget := flag.Duration("budget", 0, "per-harness time budget")
-	par := flag.Int("j", 14, "parallel harnesses")
+	par := flag.Int("j", 16, "parallel harnesses")
+	workers := flag.Int("w", 12, "max workers per harness")
 	replay := flag.String("replay", "", "replay file")
 	noNative := flag.Bool("nonative", false, "skip native validation/replay")
 	debugF := flag.Bool("debug", false, "debug output")
@@ -291,7 +378,7 @@ func main() {
 	}
 	seed := 0
 	fmt.Sscanf(os.Getenv("VERIF_SEED"), "%d", &seed)
-	opts := runOpts{solver: *solver, qTimeoutMs: *qto, harnessBudget: *budget, wantValid: 3, params: map[string]int{}, debug: *debugF}
+	opts := runOpts{solver: *solver, alt: *alt, workers: *workers, qTimeoutMs: *qto, harnessBudget: *budget, wantValid: 3, params: map[string]int{}, debug: *debugF}
 	if opts.qTimeoutMs == 0 {
 		opts.qTimeoutMs = 30000
 		if tier == 1 {
@@ -303,6 +390,9 @@ func main() {
 		if tier == 1 {
 			opts.harnessBudget = 40 * time.Minute
 		}
+	}
+	if os.Getenv("VERIF_NOSHORT") != "" {
+		opts.params["noshort"] = 1
 	}
 	if *nomerge {
 		opts.params["nomerge"] = 1
@@ -566,7 +656,7 @@ func finish(prop string, tier, seed int, partial bool, results []HarnessResult, 
 						violationsConfirmed++
 						exit = 1
 					} else {
-						fmt.Fprintf(os.Stderr, "SPURIOUS: %s: %s — solver counterexample did not reproduce natively (native outcome %s %s); treating as internal error\n", ref.res.Name, ref.viol.Msg, o.Outcome, o.Msg)
+						fmt.Fprintf(os.Stderr, "SPURIOUS: %s: %s — solver counterexample did not reproduce natively (native outcome %s %s); treating as internal error; vector=%v\n", ref.res.Name, ref.viol.Msg, o.Outcome, o.Msg, ref.viol.Vector)
 						internal = true
 					}
 				}
@@ -671,7 +761,7 @@ func finish(prop string, tier, seed int, partial bool, results []HarnessResult, 
 			"inconclusive":                  inconcl,
 			"violations_confirmed_natively": violationsConfirmed,
 			"explanation":                   "states = symbolic paths explored; transitions = SSA instructions interpreted; each harness is one obligation, discharged iff every assertion and panic VC on every feasible path was unsat, no unwinding assertion failed, and a vcover was reached",
-			"solver":                        "z3 4.8.12 (/usr/bin/z3 -in), push/pop per query",
+			"solver":                        "z3 5.1.0 (z3-new -in), push/pop per query; cvc5 1.0 as fallback on unknown",
 		},
 		"assumptions": []string{
 			"go/ssa lowering of the working tree is faithful; the SSA interpreter (/verif/engine) is validated on every run by replaying solver models natively and comparing observed values",
